@@ -18,11 +18,11 @@ Ltac msimp_in H :=
 
 Ltac csimpl :=
   cbn [cM cC cDX cDY cR cUseCopy cShape cCurChanged cReady cCurX cCurY cSliceY cUseNewFB cUseExt
-       cNewFBPending cReqChange cLastErr cBpp cPW cPH cPic
-       set_regions set_M set_flags set_curpos set_slice set_size_state set_pic mark_client] in *.
+       cNewFBPending cReqChange cLastErr cBpp cPW cPH cPic cExt
+       set_regions set_M set_flags set_curpos set_slice set_size_state set_pic set_cext set_bpp mark_client] in *.
 Ltac ssimpl :=
-  cbn [sW sH sBpp sFBid sFB sCursor sCurX sCurY sMaxRects sSliceH sClients
-       set_fb set_clients set_cursor set_knobs] in *.
+  cbn [sW sH sBpp sFBid sFB sCursor sCurX sCurY sMaxRects sSliceH sClients sExt
+       set_fb set_clients set_cursor set_knobs set_sext] in *.
 
 (* ------------------------------------------------------------------ CopyRect order *)
 (* applying the rectangles in rfbSendCopyRegion's order one after the other equals the
@@ -63,7 +63,7 @@ Proof.
   intros (HW & HH & _ & Hcl) Hin Hsl Esc Hs x y HR.
   rewrite Forall_forall in Hcl. destruct (Hcl c Hin) as [I S].
   pose proof (iWM _ _ _ _ I) as HWM. pose proof (iWC _ _ _ _ I) as HWC. pose proof (iWR _ _ _ _ I) as HWR.
-  unfold send_client in Hs. rewrite Esc in Hs.
+  unfold send_client, send_client_gen in Hs. destruct (scaled_guard c) eqn:Eguard; [discriminate|]. rewrite Esc in Hs.
   unfold slice_region in Hs. replace (sSliceH st >? 0) with false in Hs by lia.
   destruct (rgn_and (rgn_or (cM c) (r_sub (cC c) (cM c))) (cR c)) as [U2 b] eqn:Eand.
   assert (EU2 : U2 = r_and (rgn_or (cM c) (r_sub (cC c) (cM c))) (cR c)) by (unfold r_and; rewrite Eand; reflexivity).
@@ -75,7 +75,7 @@ Proof.
     pose proof (is_empty_mem U2 x y Eemp) as E0. rewrite EU2 in E0. msimp_in E0.
     rewrite HR, andb_true_r in E0. apply orb_false_iff in E0. destruct E0 as [E1 E2].
     destruct c; csimpl. split; [exact E1|]. msimp. exact E2.
-  - unfold send_update in Hs.
+  - unfold send_update_gen in Hs.
     set (UC := r_and (r_and (r_sub (cC c) (cM c)) (cR c)) (rgn_offset (cR c) (cDX c) (cDY c))) in *.
     set (U3 := r_sub U2 UC) in *.
     set (M' := r_sub (r_sub (rgn_or (cM c) (r_sub (cC c) (cM c))) U3) UC) in *.
@@ -122,12 +122,12 @@ Proof.
   { destruct S' as [?|[Ha Hb']]; [assumption|].
     (* the size flags are untouched outside the short-circuit *)
     destruct Ic as [_ [Hz|[Hc Hd]]]; [|rewrite Hc, Hd in Esc; discriminate].
-    unfold send_client in Hs. rewrite Esc in Hs.
+    unfold send_client, send_client_gen in Hs. destruct (scaled_guard c) eqn:Eguard; [discriminate|]. rewrite Esc in Hs.
     destruct (slice_region st c (cM c)) as [U0 sy].
     destruct (rgn_and _ _) as [U2 b].
     match type of Hs with (if ?cond then _ else _) = _ => destruct cond end.
     - inversion Hs; subst. destruct c; csimpl. assumption.
-    - unfold send_update in Hs. destruct (soft_cursor _ _ _) as [c2 U3c] eqn:Esoft.
+    - unfold send_update_gen in Hs. destruct (soft_cursor _ _ _) as [c2 U3c] eqn:Esoft.
       match type of Hs with (if ?cond then _ else _) = _ => destruct cond end; [|discriminate].
       inversion Hs; subst.
       destruct (cShape c && cCurChanged c && cReady c); destruct c2; csimpl; assumption. }
@@ -172,12 +172,12 @@ Proof.
   intros (HW & HH & _ & Hcl) Hin Hsl Esc Hs x y HM HR.
   rewrite Forall_forall in Hcl. destruct (Hcl c Hin) as [I S].
   pose proof (iWM _ _ _ _ I) as HWM. pose proof (iWC _ _ _ _ I) as HWC. pose proof (iWR _ _ _ _ I) as HWR.
-  unfold send_client in Hs. rewrite Esc in Hs.
+  unfold send_client, send_client_gen in Hs. destruct (scaled_guard c) eqn:Eguard; [discriminate|]. rewrite Esc in Hs.
   unfold slice_region in Hs. replace (sSliceH st >? 0) with false in Hs by lia.
   destruct (rgn_and (rgn_or (cM c) (r_sub (cC c) (cM c))) (cR c)) as [U2 b] eqn:Eand.
   assert (EU2 : U2 = r_and (rgn_or (cM c) (r_sub (cC c) (cM c))) (cR c)) by (unfold r_and; rewrite Eand; reflexivity).
   match type of Hs with (if ?cond then _ else _) = _ => destruct cond end; [discriminate|].
-  unfold send_update in Hs.
+  unfold send_update_gen in Hs.
   set (UC := r_and (r_and (r_sub (cC c) (cM c)) (cR c)) (rgn_offset (cR c) (cDX c) (cDY c))) in *.
   set (U3 := r_sub U2 UC) in *.
   destruct (soft_cursor st _ U3) as [c2 U3c] eqn:Esoft.
@@ -255,27 +255,28 @@ Ltac Zify.zify_post_hook ::= idtac.
 
 (* ------------------------------------------------------------------ silence when up to date *)
 Lemma idle_incremental_silent st c x y w h :
-  pending st c = false ->
+  pending st c = false -> cScaled c = None ->
   let c1 := request_client (sW st) (sH st) true x y w h c in
   tick_client st c1 = Some (c1, None) /\
   exists c', send_client st c1 = Some (c', None).
 Proof.
-  intros Hp c1. unfold pending in Hp.
+  intros Hp Hsc c1. unfold pending in Hp.
   repeat (apply orb_false_iff in Hp; destruct Hp as [Hp ?]).
   assert (EM : cM c = []) by (destruct (cM c); [reflexivity|discriminate]).
   assert (EC : cC c = []) by (destruct (cC c); [reflexivity|discriminate]).
   assert (F1 : cM c1 = [] /\ cC c1 = [] /\ cShape c1 = cShape c /\ cCurChanged c1 = cCurChanged c /\
                cCurX c1 = cCurX c /\ cCurY c1 = cCurY c /\ cUseNewFB c1 = cUseNewFB c /\
-               cNewFBPending c1 = cNewFBPending c).
-  { unfold c1, request_client. destruct (req_clip _ _ _ _ _ _) as [[[[? ?] w1] h1]|]; [destruct ((w1 =? 0) || (h1 =? 0))|];
-      destruct c; csimpl; subst; repeat split. }
-  destruct F1 as (G1 & G2 & G3 & G4 & G5 & G6 & G7 & G8).
+               cNewFBPending c1 = cNewFBPending c /\ scaled_guard c1 = false).
+  { unfold c1, request_client, scaled_guard, cScaled in *.
+    destruct (req_clip _ _ _ _ _ _) as [[[[? ?] w1] h1]|]; [destruct ((w1 =? 0) || (h1 =? 0))|];
+      destruct c; csimpl; subst; rewrite ?Hsc; repeat split. }
+  destruct F1 as (G1 & G2 & G3 & G4 & G5 & G6 & G7 & G8 & G9).
   assert (Hp1 : pending st c1 = false).
   { unfold pending. rewrite G1, G2, G3, G4, G5, G6, G7, G8. cbn.
     rewrite Hp, H2, H1. reflexivity. }
   split.
-  - unfold tick_client. rewrite Hp1. reflexivity.
-  - unfold send_client. rewrite G7, G8, H1.
+  - unfold tick_client. rewrite G9, Hp1. reflexivity.
+  - unfold send_client, send_client_gen. rewrite G9, G7, G8, H1.
     assert (Esl : slice_region st c1 (cM c1) = ([], snd (slice_region st c1 (cM c1)))).
     { rewrite G1. unfold slice_region. destruct (sSliceH st >? 0); reflexivity. }
     rewrite Esl. rewrite G1, G2. cbn [r_sub rgn_sub span_sub sub_loop sub_fuel fst length Nat.mul Nat.add].
@@ -401,4 +402,103 @@ Lemma mark_outside_ignored st x1 y1 x2 y2 :
 Proof.
   intros Hout. cbn [step]. destruct (mark_clip (sW st) (sH st) x1 y1 x2 y2) as [[[[a b] c] d]|] eqn:E; [|reflexivity].
   exfalso. pose proof (mark_clip_sem _ _ _ _ _ _ _ E) as Hs. cbn in Hs. lia.
+Qed.
+
+(* ------------------------------------------------------------------ the deferral timer *)
+(* while rfbUpdateClient defers (timer just started, or not yet expired) nothing but the timer
+   changes: the update is not lost, it stays in M / C / R *)
+Lemma tick_deferring_keeps st c c' m :
+  tick_client st c = Some (c', m) -> xDefer (sExt st) <> 0 ->
+  xDefU (cExt c) = 0 \/
+  ((xNowS (sExt st) <? xDefS (cExt c)) || (elapsed_ms st c >? xDefer (sExt st)) = false) ->
+  m = None /\ exists e, c' = set_cext c e.
+Proof.
+  unfold tick_client. intros Ht Hd Hcase.
+  assert (Hsame : c = set_cext c (cExt c)) by (destruct c; reflexivity).
+  destruct (scaled_guard c); [discriminate|].
+  destruct (pending st c && negb (rgn_is_empty (cR c))).
+  2:{ inversion Ht. split; [reflexivity|]. exists (cExt c). subst c'. exact Hsame. }
+  replace (xDefer (sExt st) =? 0) with false in Ht by lia.
+  destruct (xDefU (cExt c) =? 0) eqn:Eu.
+  - inversion Ht. split; [reflexivity|]. eexists. reflexivity.
+  - destruct Hcase as [Hc|Hc]; [lia|]. rewrite Hc in Ht. inversion Ht.
+    split; [reflexivity|]. exists (cExt c). subst c'. exact Hsame.
+Qed.
+
+(* once more than deferUpdateTime ms have passed (or the clock jumped back) the pending update is
+   sent exactly as rfbSendFramebufferUpdate would have sent it at once *)
+Lemma tick_expired_sends st c :
+  scaled_guard c = false -> pending st c && negb (rgn_is_empty (cR c)) = true ->
+  xDefer (sExt st) <> 0 -> xDefU (cExt c) <> 0 ->
+  (xNowS (sExt st) <? xDefS (cExt c)) || (elapsed_ms st c >? xDefer (sExt st)) = true ->
+  tick_client st c = send_client st (set_cext c (mkCExt (xDefS (cExt c)) 0 (cScaled c))).
+Proof.
+  intros Hg Hp Hd Hu He. unfold tick_client. rewrite Hg, Hp.
+  replace (xDefer (sExt st) =? 0) with false by lia. replace (xDefU (cExt c) =? 0) with false by lia.
+  rewrite He. reflexivity.
+Qed.
+
+(* ------------------------------------------------------------------ any lossless encoding *)
+(* the client's picture after an update whose pixel rectangles are delivered by [deliver] instead
+   of Raw *)
+Definition client_apply_with (deliver : (Z -> Z -> Z) -> (Z -> Z -> Z) -> rect -> Z -> Z -> Z)
+           (cf fb : Z -> Z -> Z) (copies : list rect) (dx dy : Z) (raws : list rect) : Z -> Z -> Z :=
+  fold_left (deliver fb) raws (copy_seq cf copies dx dy).
+
+(* what C01 proves about every lossless encoder / decoder pair: the decoded rectangle carries the
+   framebuffer content, the rest of the picture is untouched *)
+Definition delivers_fb (deliver : (Z -> Z -> Z) -> (Z -> Z -> Z) -> rect -> Z -> Z -> Z) : Prop :=
+  forall src g rc x y, deliver src g rc x y = if rect_mem rc x y then src x y else g x y.
+
+Lemma client_apply_with_eq deliver cf fb copies dx dy raws x y :
+  delivers_fb deliver ->
+  client_apply_with deliver cf fb copies dx dy raws x y = client_apply cf fb copies dx dy raws x y.
+Proof.
+  intros Hd. unfold client_apply_with, client_apply. generalize (copy_seq cf copies dx dy).
+  induction raws as [|rc l IH]; intros g; [reflexivity|]. cbn [fold_left].
+  rewrite IH. rewrite !raw_fold_sem. unfold apply_raw. rewrite Hd. reflexivity.
+Qed.
+
+Lemma pic_build_ext w h f g : (forall x y, f x y = g x y) -> pic_build w h f = pic_build w h g.
+Proof.
+  intros E. unfold pic_build. apply map_ext. intros y. apply map_ext. intros x. apply E.
+Qed.
+
+(* convergence needs nothing else from the encoding: the update sent with ANY encoding that
+   delivers the framebuffer content leaves exactly the same client (regions, flags, picture) and
+   the same rectangle geometry as the Raw model, so every C02 / C16 theorem about send_client holds
+   for it; the pixel-exactness of each encoding is property C01 *)
+Lemma any_lossless_encoding deliver st c :
+  delivers_fb deliver -> send_client_gen (client_apply_with deliver) st c = send_client st c.
+Proof.
+  intros Hd. unfold send_client, send_client_gen.
+  destruct (scaled_guard c); [reflexivity|].
+  destruct (cUseNewFB c && cNewFBPending c); [reflexivity|].
+  destruct (slice_region st c (cM c)) as [U0 sy]. destruct (rgn_and _ _) as [U2 b].
+  match goal with |- (if ?cond then _ else _) = _ => destruct cond end; [reflexivity|].
+  unfold send_update_gen. destruct (soft_cursor _ _ _) as [c2 U3c].
+  match goal with |- (if ?cond then _ else _) = _ => destruct cond end; [|reflexivity].
+  f_equal. f_equal. f_equal. apply pic_build_ext. intros x y. apply client_apply_with_eq. exact Hd.
+Qed.
+
+(* the invariant does not depend on the Tick schedule: whatever deferUpdateTime and the clock are *)
+Lemma deferral_sound st c c' m :
+  Inv st -> In c (sClients st) -> tick_client st c = Some (c', m) ->
+  InvC (sW st) (sH st) (fb_for st c') c'.
+Proof.
+  intros (HW & HH & _ & Hcl) Hin Ht. rewrite Forall_forall in Hcl.
+  destruct (inv_tick st c c' m HW HH (Hcl c Hin) Ht) as [G1 G2].
+  apply invc_Fext with (F := fb_for st c); [|exact G1].
+  intros x y _. unfold fb_for. rewrite G2. reflexivity.
+Qed.
+
+(* SetPixelFormat mid-session (followed by the non-incremental request of the whole screen a
+   conforming client sends): the invariant holds for the new format, everything is modified *)
+Lemma setpixelformat_resync st c bpp :
+  Inv st -> In c (sClients st) ->
+  let c' := setpf_client st bpp c in
+  InvC (sW st) (sH st) (fb_for st c') c' /\ cBpp c' = bpp.
+Proof.
+  intros (HW & HH & _ & Hcl) Hin c'. rewrite Forall_forall in Hcl.
+  apply (inv_setpf st (fb_for st c) (fb_for st c') bpp c HW HH (Hcl c Hin)).
 Qed.
